@@ -8,8 +8,9 @@ verus! {
 #[verifier::external_body] pub struct IPFixParser { _p: () }
 //@ type src/variable_versions/ipfix.rs - FlowSet
 //@ type src/variable_versions/ipfix.rs - FlowSetHeader
-/// semantic function of FlowSetBody::parse: result (None on error) and the parser afterwards
-pub uninterp spec fn body_fn(st: IPFixParser, b: Seq<u8>, id: u16) -> (Option<FlowSetBody>, IPFixParser);
+}
+//@ include ipfix_set_spec.rs
+verus! {
 impl FlowSetBody {
     #[verifier::external_body]
     fn parse<'a>(i: &'a [u8], parser: &mut IPFixParser, id: u16) -> (r: IResult<&'a [u8], FlowSetBody>)
@@ -23,22 +24,6 @@ impl FlowSetHeader {
         ensures fixed_post(i, r, 4), r is Ok ==> r->Ok_0.1.header_id == be16(i@, 0) && r->Ok_0.1.length == be16(i@, 2),
     { unimplemented!() }
 }
-pub open spec fn set_body_len(b: Seq<u8>) -> int { if be16(b, 2) >= 4 { be16(b, 2) - 4 } else { 0 } }
-
-pub open spec fn flowset_post<'a>(old_p: IPFixParser, new_p: IPFixParser, b: &'a [u8], r: IResult<&'a [u8], FlowSet>) -> bool {
-    if b@.len() < 4 || b@.len() < 4 + set_body_len(b@) {
-        r is Err && new_p == old_p                   // announced bytes missing: nothing interpreted, caches untouched
-    } else {
-        let l = set_body_len(b@);
-        let (body, st1) = body_fn(old_p, b@.subrange(4, 4 + l), be16(b@, 0));
-        &&& new_p == st1                             // the caches change exactly as FlowSetBody::parse changes them
-        &&& (body is None ==> r is Err)
-        &&& (body is Some ==> r is Ok && r->Ok_0.1.body == body->0
-                && r->Ok_0.1.header.header_id == be16(b@, 0) && r->Ok_0.1.header.length == be16(b@, 2)
-                && r->Ok_0.0@ == b@.subrange(4 + l, b@.len() as int))   // consumes max(length, 4) bytes
-    }
-}
-
 impl FlowSet {
 //@ fn expanded variable_versions::ipfix /impl<'nom> FlowSet/ parse_be
 //@   result: r
@@ -54,6 +39,11 @@ impl FlowSet {
 //@       lemma_sub_sub2(b, 4, b.len() as int, length as int, b.len() - 4);
 //@   }
 //@   ensures: flowset_post(*old(parser), *final(parser), orig_i, r)
+//@ end
+//@ fn expanded variable_versions::ipfix /impl<'nom> FlowSet/ parse
+//@   result: r
+//@   generics: <'nom>
+//@   contract: stubs/ipfix_flowset_parse.rs
 //@ end
 }
 } // verus!
